@@ -91,6 +91,12 @@ static std::string step(const std::vector<std::string>& w) {
     else if (o.wrp) n.cmp.reset(new compact_theta_sketch(*o.wrp, o.wrp->is_ordered()));
     else n.cmp.reset(new compact_theta_sketch(*o.cmp));
     int nid = atoi(w[2].c_str());
+    auto tgt = objs.find(nid);
+    if (tgt != objs.end() && tgt->second.upd && n.upd) {
+      // the target exists: ASSIGN into it (copy assignment for odd ids, move assignment from a temporary for even ids)
+      if (nid % 2) *tgt->second.upd = *o.upd; else *tgt->second.upd = std::move(*n.upd);
+      return observe(tgt->second.sk());
+    }
     objs[nid] = std::move(n);
     return observe(objs[nid].sk());
   }
